@@ -95,7 +95,7 @@ STATS_RE = re.compile(r'(\d+) states generated, (\d+) distinct states found, (\d
 DEPTH_RE = re.compile(r'The depth of the complete state graph search is (\d+)')
 
 
-def tlc(work, module, cfg, workers=None, timeout=600, env=None, heap='6g', extra=(), stack='64m',
+def tlc(work, module, cfg, workers=None, timeout=600, env=None, heap='6g', extra=(), stack='512m',
         cwd=None):
     """Run TLC in the scratch copy of specs/.  Returns a dict with the output
     text and parsed statistics."""
@@ -103,6 +103,8 @@ def tlc(work, module, cfg, workers=None, timeout=600, env=None, heap='6g', extra
     cmd = ['timeout', str(timeout), 'tlc', '-workers', str(workers or 1), '-metadir', md,
            '-config', cfg] + list(extra) + [module + '.tla']
     e = dict(os.environ)
+    if stack in ('64m', '256m'):
+        stack = '512m'      # deep recursion over long sequences is common in the trace specs
     e['JAVA_TOOL_OPTIONS'] = '-Xmx%s -Xss%s' % (heap, stack)
     if env:
         e.update(env)
